@@ -45,9 +45,9 @@ MUTANTS = [
     M("c08-qweight-cached", "C08", "break", [(QMOD, "        # Quantize dynamically the weights per-axis\n        return quantize_weight(", "        if getattr(self, \"_qweight_cache\", None) is not None:\n            return self._qweight_cache\n        # Quantize dynamically the weights per-axis\n        return quantize_weight(")], "C08.R7"),
     M("c08-qweight-other-axis", "C08", "break", [(QMOD, "            self.weight,\n            qtype=self.weight_qtype,\n            axis=0,", "            self.weight,\n            qtype=self.weight_qtype,\n            axis=-1,")], "C08.R7"),
     # ---------------- C06 copy_ / unflatten
-    M("c06-copy-rebinds-scale", "C06", "break", [(OPS, "    dest._scale = op(dest._scale, src._scale)", "    dest._scale = src._scale.clone()")], "C06.R8"),
+    M("c06-copy-rebinds-scale", "C06", "break", [(OPS, "    dest._scale = op(dest._scale, src._scale, non_blocking)", "    dest._scale = src._scale.clone()")], "C06.R8"),
     M("c06-unflatten-normalises-axis", "C06", "break", [(QB, "        stride = ast.literal_eval(meta[\"stride\"])\n        return QBytesTensor(qtype, axis, size, stride, data, scale)", "        stride = ast.literal_eval(meta[\"stride\"])\n        if axis is not None and axis < 0:\n            axis += len(size)\n        return QBytesTensor(qtype, axis, size, stride, data, scale)")], "C06.R5"),
-    M("c06-refactor-copy-assert-layout", "C06", "refactor", [(OPS, "    dest._scale = op(dest._scale, src._scale)", "    dest._scale = op(dest._scale, src._scale)\n    assert dest._scale.shape == src._scale.shape")]),
+    M("c06-refactor-copy-assert-layout", "C06", "refactor", [(OPS, "    dest._scale = op(dest._scale, src._scale, non_blocking)", "    dest._scale = op(dest._scale, src._scale, non_blocking)\n    assert dest._scale.shape == src._scale.shape")]),
     # ---------------- C03 wrapper passthrough / reduction dims
     M("c03-call-clamps-zeropoint", "C03", "break", [(AOPT, "        assert zeropoint.dtype == torch.int8\n", "        assert zeropoint.dtype == torch.int8\n        zeropoint = torch.clamp(zeropoint, min=0, max=2**bits - 1)\n")], "C03.R5"),
     M("c03-call-floors-scale", "C03", "break", [(AOPT, "        assert zeropoint.dtype == torch.int8\n", "        assert zeropoint.dtype == torch.int8\n        scale = torch.clamp(scale, min=1e-6)\n")], "C03.R5"),
